@@ -318,9 +318,9 @@ def measurements_twin(rng):
     sc = rp.scenario(rng, kind=rng.choice(["nonideal_iso", "nonideal_noniso"]))
     mix = sc["mix"]
     st = rng.getstate()
-    csa = rp.make_curve_set(rng, mix, ctype="weight")
+    csa = rp.make_curve_set(rng, mix, ctype="weight", cluster_p=0.5)
     rng.setstate(st)
-    csb = rp.make_curve_set(rng, mix, ctype="molar")
+    csb = rp.make_curve_set(rng, mix, ctype="molar", cluster_p=0.5)
     if rng.random() < 0.5:
         # the molar set has been USED before: a non-ideal process model (or the curve model) was run on it; what is extracted
         # from it afterwards must still be the same points
